@@ -526,6 +526,11 @@ def main(run):
                     m, adr = int(dmu[i0, j, 0]), int(dmu[i0, j, 1])
                     if int(r_m[ii, j]) != m or not same_set(r_v[ii, j, :m], dsv[adr:adr + m], scale):
                         readdr_ok = False
+            # correspondence: the model's `denseToSparse` on this very table (exact binary rationals), all 27 slots per pair
+            if made % 4 == 1 or thorough:
+                lines.append("d2s %d %s %d %s" % (len(tv), " ".join("%d/%d" % Fr(float(x)).as_integer_ratio() for x in np.array(tv).ravel()),
+                                                 tm.shape[0] * tm.shape[1], ints(tm)))
+                meta.append(("d2s", dict(case, readdressed=tag), (np.array(r_v), np.array(r_m))))
             if not readdr_ok:
                 run.violation("dense_to_sparse_svecs", "dense-ne-sparse", "the sparse table converted from a dense table with %s holds other sets than the dense table read through its addresses" % tag, dict(case, readdressed=tag, rows=rows, block_order=order))
                 break
@@ -1061,6 +1066,23 @@ def main(run):
                 run.broke("correspondence", "dense shortest vectors differ from the model", case)
             if not oks:
                 run.broke("correspondence", "sparse kernel differs from the model", case)
+        elif kind == "d2s":
+            r_v, r_m = impl
+            tk = o.split()
+            if tk[0] == "notwf":
+                run.broke("correspondence", "model: the re-addressed dense table handed to dense_to_sparse_svecs is not well-formed", case)
+                continue
+            if tk[0] != "1":
+                run.broke("correspondence", "model: sparseToDense (denseToSparse d) does not read like d (contradicts dense_sparse_roundtrip_any_table)", case)
+            npair_ = r_m.shape[0] * r_m.shape[1]
+            if len(tk) != 1 + npair_ * 82:
+                run.broke("correspondence", "d2s: model answered %d tokens for %d pairs" % (len(tk), npair_), case)
+                continue
+            body = np.array(tk[1:], dtype=object).reshape(npair_, 82)
+            mm_ = np.array([int(x) for x in body[:, 0]]).reshape(r_m.shape)
+            vv_ = np.array([float(Fr(x)) for x in body[:, 1:].ravel()]).reshape(r_v.shape)
+            if (mm_ != r_m).any() or not np.array_equal(vv_, r_v):
+                run.broke("correspondence", "dense_to_sparse_svecs differs from the model's denseToSparse on a re-addressed dense table (%s)" % case.get("readdressed"), case)
         elif kind == "wincert":
             tk = o.split()
             run.count("reduced basis passes wellReduced" if tk[-1] == "1" else "reduced basis does NOT pass wellReduced", section="correspondence")
